@@ -42,6 +42,10 @@ CHECKS['C20'] = dict(level='model_checking', engine='gosym', design='4/C20',
    technique='bounded symbolic execution of the Go writer and parser (go/ssa) on symbolic strings/ints/keys, z3',
    text='The real TOML writer and parser functions are executed symbolically: string values (all ASCII strings up to L=4 quick / 6 thorough in the writable domain), ints (|v|<100000 plus extremes), bools, float representatives, keys, inline comments and padding are symbolic; the solver decides that value and dynamic type survive the round trip and that parsing never panics on any ASCII content up to L bytes.',
    note=_GO_NOTE + ' ASCII only; Scanner line splitting replaced by its documented behaviour; float digit generation and ParseFloat on symbolic text are not executed symbolically.')
+CHECKS['C16'] = dict(level='model_checking', engine='lirsym/llvm', design='4/C16',
+   technique='symbolic execution of clang -O0 LLVM IR of bigint.c with all limbs symbolic; z3 bit-vectors at width N, uninterpreted partial products for mul, one inductive step for text accumulation',
+   text='The *_ptr entry points of runtime/core/bigint.c that the compiler calls are executed symbolically on regions of symbolic 64-bit limbs (the full 2^128 / 2^256 operand spaces): add, sub, and, or, xor, not, eq, lt, gt, from/to 64-bit for all four types, 128-bit unsigned mul (schoolbook identity over range-constrained uninterpreted 64x64 products), decimal from_string for short texts with every digit symbolic, and one inductive step of the text accumulation (v*base+digit from an arbitrary limb state, bases 10/16/8/2). Counterexamples are replayed through a C driver under ASan/UBSan.',
+   note='Trusted: clang front end (-O0 IR = source), the C optimiser/back end that builds the shipped library, LLVM semantics in lirsym/llvm.py, libc summaries, z3. Not covered: div, mod, pow, to_string, 256-bit and signed mul, shifts.')
 NA_DEFAULT = 'check not built yet (work in progress, see DESIGN.md section 11)'
 NA = {}
 
@@ -69,6 +73,7 @@ def main():
                   'baseline_off_cmd': 'cd /repo && go test -mod=mod -vet=off -count=1 -timeout 25m ./...', 'source_commits': [], 'add_only': True},
         'engines': [
             {'name': 'gosym', 'path': 'gosym/', 'serves_properties': ['C03', 'C06', 'C07', 'C10', 'C11', 'C12', 'C13', 'C14', 'C15', 'C18', 'C19', 'C20'], 'kind_free_text': 'symbolic interpreter for go/ssa (Go, x/tools v0.50.0 ssa/interp extended with SMT terms, fork-by-replay, z3 -in)'},
+            {'name': 'lirsym/llvm', 'path': 'lirsym/llvm.py', 'serves_properties': ['C16', 'C17'], 'kind_free_text': 'path-wise symbolic executor for clang -O0 LLVM IR of the C runtime (Python, z3 API)'},
             {'name': 'lirsym/qbe', 'path': 'lirsym/qbe.py', 'serves_properties': ['C01', 'C04', 'C05', 'C08', 'C09', 'C18'], 'kind_free_text': 'path-wise symbolic executor for the QBE IL the compiler emits (Python, z3 API)'},
         ],
         'checks': checks,
